@@ -491,3 +491,50 @@ Proof.
     + intros _ Hn. eapply onchain_counterparty_buried; eassumption.
   - split; [eapply counterparty_accept; eassumption | discriminate].
 Qed.
+
+(** * Lifecycle: commitments are only accepted on a channel whose setup was accepted *)
+
+Definition slot_ok (warn : tag -> bool) (pol : policy) (st : slot) : Prop :=
+  match st with Stub => True | Ready s => validate_setup_channel warn pol s = Ok end.
+
+Lemma lstep_slot_ok est prof warn pol oc st o :
+  slot_ok warn pol st -> slot_ok warn pol (fst (lstep est prof warn pol oc st o)).
+Proof.
+  intros H. destruct o as [s | e cs n i | e cs n i]; cbn [lstep].
+  - destruct st as [|s']; cbn [fst]; [|exact H].
+    destruct (validate_setup_channel warn pol s) eqn:E; cbn [fst slot_ok]; auto.
+  - destruct st; cbn [fst]; exact H.
+  - destruct st; cbn [fst]; exact H.
+Qed.
+
+Lemma lrun_slot_ok est prof warn pol oc ops : forall st,
+  slot_ok warn pol st -> slot_ok warn pol (lrun est prof warn pol oc st ops).
+Proof.
+  induction ops as [|o r IH]; intros st H; cbn [lrun fold_left]; [exact H|].
+  apply IH. apply lstep_slot_ok. exact H.
+Qed.
+
+Lemma code3_ok r : code3 r = 0 -> r = Ok.
+Proof. destruct r; cbn [code3]; intros H; [reflexivity | discriminate | discriminate]. Qed.
+
+(** after any history of requests on a channel id, an accepted commitment request met a ready
+    channel whose setup validate_setup_channel accepted, and passed validate_commitment_tx with
+    that setup *)
+Theorem accepted_commitment_on_validated_setup est prof warn pol oc pre o :
+  let st := lrun est prof warn pol oc Stub pre in
+  snd (lstep est prof warn pol oc st o) = 0 ->
+  match o with
+  | LSetup _ => True
+  | LSignCp e cs n i | LValidateHolder e cs n i =>
+      exists s, st = Ready s /\ validate_setup_channel warn pol s = Ok /\
+                validate_commitment est prof warn pol s cs n i = Ok
+  end.
+Proof.
+  intros st H.
+  assert (Hok : slot_ok warn pol st) by (apply lrun_slot_ok; exact I).
+  destruct o as [s | e cs n i | e cs n i]; [exact I | |]; cbn [lstep] in H;
+    destruct st as [|s]; cbn [snd] in H; try discriminate; exists s;
+    (split; [reflexivity|]); (split; [exact Hok|]); apply code3_ok in H.
+  - apply sign_counterparty_facts in H. tauto.
+  - eapply entry_accept. eassumption.
+Qed.
